@@ -5,15 +5,15 @@ import json
 
 BUILT = {
     "C01": ("3.1", "deterministic simulation: seeded adversarial schedules in a discrete-time FP kernel, monitored against the real analyses' bounds",
-            "Seeded search over schedules of an independent discrete-time fixed-priority kernel (4 preemption models): release times anywhere the library's curve allows, execution times in [1,WCET], non-preemptive region placement, tie breaks; every job of every task with an Ok bound must finish within it. Constructive worst-case candidates make ~98% of bounds attained exactly on the unchanged tree, so a one-tick optimistic slip is visible on most inputs. Sampling, not proof."),
+            "Seeded search over schedules of an independent discrete-time fixed-priority kernel (4 preemption models): release times anywhere the library's curve allows, execution times in [1,WCET], non-preemptive region placement, tie breaks; every job of every task with an Ok bound must finish within it. Per task a structured constructive worst-case candidate (aligned blocker, dense synchronous burst, WCET, longest NP regions, lost ties) on top of the random schedules makes ~94% of bounds attained exactly on the unchanged tree, so a one-tick optimistic slip is visible on most inputs. Sampling, not proof."),
     "C02": ("3.2", "deterministic simulation: seeded adversarial EDF schedules (deadline ties, anchored releases, blockers) monitored against the real analyses' bounds",
             "Same kernel under EDF with adversarial deadline tie-breaks, deadline-shifted anchored releases and aligned blockers; all four EDF analyses; ~87% of bounds attained exactly on the unchanged tree."),
     "C03": ("3.3", "deterministic simulation: seeded FIFO schedules with adversarial simultaneous-release ties, monitored against the real analysis' bound",
             "Same kernel under FIFO; every job of every task is monitored against the single bound; >99% of bounds attained exactly on the unchanged tree."),
     "C18": ("3.11", "deterministic simulation: constructive worst-case adversary in the kernel; equality of observed maximum and bound",
-            "For task sets whose curves are attained by their dense sequences, the constructive worst-case schedule is simulated and the largest response must EQUAL the bound of FP-P, FP-NP and FIFO (equality held in all analysed entities on the unchanged tree), which exposes pessimistic as well as optimistic one-tick changes."),
+            "For Periodic / Sporadic / ExtrapolatingCurve task sets the constructive worst-case schedule (maximal-rate releases of the process each model DOCUMENTS, not of the library's curve; WCET; lost ties; NP blocker one tick earlier) is simulated and the largest response must EQUAL the bound of FP-P, FP-NP and FIFO (equality held in all analysed entities on the unchanged tree), which exposes pessimistic as well as optimistic one-tick changes."),
     "C09": ("3.6", "deterministic simulation: reservation server with adversarial budget placement, every window metered against provided_service / service_time (specialised and default)",
-            "A reservation-server stub places its budget anywhere the model allows (early, late, early-then-late, random, over-provisioned) over 8 periods, plus static cyclic slot-table servers; every window of every length up to 4P is metered and every demand up to 3Q drained from every instant. Minimum metered service must EQUAL provided_service and maximum drain time must EQUAL service_time for the closed-form and for the trait-default implementation; exhaustive over all (Q,D,P) with P <= 9 (quick) / 16 (thorough) plus random larger ones."),
+            "A reservation-server stub places its budget anywhere the model allows (early, late, early-then-late, random, over-provisioned) over 8 periods, plus static cyclic slot-table servers; every window of every length up to 4P is metered and every demand up to 3Q drained from every instant. Minimum metered service must EQUAL provided_service and maximum drain time must EQUAL service_time for the closed-form and for the trait-default implementation; all (Q,D,P) with P <= 10 (quick) / 20 (thorough) plus random larger ones are sampled, and for P <= 4 (quick) / 5 (thorough) EVERY placement over five periods is enumerated, so that equality with the true supply-bound function and its inverse is decided there."),
     "C10": ("3.7", "deterministic simulation: event sources following each model's documented process with injected delays, stretching, reordering and merging; window counts over the recorded history",
             "Event-source stubs generate streams from the process each arrival model documents (not from the library's curve): phases, gap stretching, per-event release jitter with reordering, bursts where delta-min is 0, nested per-event delays for Propagated/clone_with_jitter, merged component streams. Every window [t_i, t_j] of the recorded history is counted against number_arrivals; the maximal-rate stream of Periodic/Sporadic must attain it."),
     "C12": ("3.8", "deterministic simulation: recorded traces and documented-process event streams of source models checked in every window against the derived objects; dense streams of derived objects against the source; delta_min_iter duality",
@@ -23,7 +23,7 @@ BUILT = {
     "C14": ("3.10", "deterministic simulation: recorded job-cost histories summed over every run of consecutive jobs against the inferred / extrapolated cost curves; cooperative query clients on one shared wcet::ExtrapolatingCurve against a fresh object and a min-plus model",
             "An execution-time source (frame patterns, variation, spikes, zero-cost jobs) records job-cost histories; wcet::Curve::from_trace(max_n) must dominate the cost of every run of n consecutive jobs anywhere in the history for every n up to its length, extrapolate(m) may not raise any value and must keep dominating. 2-5 handles sharing one wcet::ExtrapolatingCurve interleave cost_of_jobs / least_wcet / lazy job_cost_iter operations under a seeded scheduler and every answer is compared with a fresh object and an independent min-plus model. The pure invariants of Scalar / Multiframe / Curve / ExtrapolatingCurve ride along."),
     "C04": ("3.4", "deterministic simulation: ROS 2 executor stub under a reservation-server stub with online adversarial budget placement, every instance monitored against the real ECRTS'19 bounds",
-            "A single-threaded ROS 2 executor stub (timers first, ready set refreshed only when empty, non-preemptive callbacks, chains activated on completion) runs under a reservation stub that places its budget online (early, late, early-then-late aligned with a burst, random, withheld while busy, over-provisioned, random grid phase). Arrivals anywhere the library's curves allow, execution times in [1,WCET]. Every instance of every timer / polled callback / chain (source arrival to completion of the last callback) / event source is monitored against the bound the real analysis returned. About 38% of bounds are attained exactly on the unchanged tree."),
+            "A single-threaded ROS 2 executor stub (timers first, ready set refreshed only when empty, non-preemptive callbacks, chains activated on completion) runs under a reservation stub that places its budget online (early, late, early-then-late aligned with a burst, random, withheld while busy, over-provisioned, random grid phase). Arrivals anywhere the library's curves allow, execution times in [1,WCET]. Every instance of every timer / polled callback / chain (source arrival to completion of the last callback) / event source is monitored against the bound the real analysis returned. Half of the workloads use non-scalar cost models (wcet::Curve / ExtrapolatingCurve from a cyclic execution-time pattern the execution-time source follows), which makes the least-WCET term observable; a short guided (hill-climbing) search follows the random schedules. About 38% of bounds are attained exactly on the unchanged tree."),
     "C05": ("3.5", "deterministic simulation: same executor + reservation stubs; the rr / bw singleton-subchain analyses iterated to a self-consistent vector, every instance monitored against it",
             "The rr resp. bw subchain analysis is iterated upwards from the WCETs until it reproduces the assumed response-time vector exactly (otherwise no claim); the same executor and reservation stubs then run timers, polled callbacks with known and with unknown priority under adversarial arrivals, execution times and budget placement, and every instance is monitored against its entry of the vector. The RTSS'21 bounds are far from tight (about 16% attained), so only changes that fall below the true worst case of a sampled workload are visible."),
 }
